@@ -181,7 +181,10 @@ def run_case(case):
         obs["commands_run"] += 1
         log.append(f"{mod} {' '.join(a if len(a) < 40 else '...' + a[-25:] for a in args)} "
                    f"-> {rc}")
-        if rc != 0 and expect_ok:
+        if rc != 0 and any("ContractBroken" in t for t in tail):
+            v.append({"kind": "contract-broken-inside-the-command",
+                      "detail": f"{ctx}: `{log[-1]}`: {tail}"})
+        elif rc != 0 and expect_ok:
             v.append({"kind": "command-failed",
                       "detail": f"{ctx}: `{log[-1]}`: {tail}; sequence {log[-6:]}"})
         return rc, out
